@@ -965,7 +965,8 @@ PROPS["C10"] = {
             "signExt, reads of Z/X outputs, variables first assigned inside loops/whiles that do not run, widths 1..64, bidirectional signals, odd signal names, drivers with faults and layout deviations, "
             "callers that keep going after IO errors; run under catch_unwind in the debug profile (overflow checks on) and, in the thorough tier, the release profile; non-trivial = at least one row or an error item",
     "proved": "END TO END: text that parses + signal list that binds => constructor and every next() never panic, for every driver, generator, write_input variant, number of calls and fuel (all 14 panic sites of the model unreachable); "
-              "possible error items enumerated; expression failures (division by zero, unknown variable, empty random range, unimplemented function) are Err results",
+              "possible error items enumerated; expression failures (division by zero, unknown variable, empty random range, unimplemented function) are Err results; "
+              "the same for a caller that keeps calling next() after error items of every kind, evaluation errors of the program included (the iterator's state after an error is modelled and the invariant proved for it)",
     "validated_only": "completeness of the panic-site inventory of the model w.r.t. the Rust source (tools/panic_audit.py lists the panic-capable constructs of src/ against the committed inventory); panics inside dependencies",
     "assumptions": ["the model marks every panic-capable construct of the crate (audited)", "Iter.v etc. model the crate (checked by this run)"],
     "trusted_base": [],
